@@ -75,7 +75,7 @@ func (e EnumSchema[S, T]) ValidateCompatibility(typeOrData any) error {
 		switch {
 		case (selfDisplayValue == nil || selfDisplayValue.Name() == nil) &&
 			(otherDisplayValue == nil || otherDisplayValue.Name() == nil):
-			return nil
+			continue // this value is fine; the remaining ones still have to be checked
 		case otherDisplayValue == nil || otherDisplayValue.Name() == nil:
 			return &ConstraintError{
 				Message: fmt.Sprintf("display values for key %s is missing in compared data %T",
